@@ -61,8 +61,15 @@ def run_case(case):  # noqa: C901, PLR0912
         pred["listed"] = "not-in-dependency-order"
     if case.get("default_root"):
         pred["root_default"] = True
+    if case.get("ishape_both"):
+        pred["ishape_both"] = True
     try:
-        if case.get("order"):
+        if case.get("ishape_both"):
+            # the PipeFunc declares OTHER internal sizes; the sizes given to map(internal_shapes=) are the ones that count
+            other = {**spec["sizes"], **{a: spec["sizes"][a] + 1 for fn in spec["funcs"] for a in fn["internal"]}}
+            with contextlib.redirect_stdout(io.StringIO()):
+                p = Pipeline(gen_map.build_funcs(spec, declared_sizes=other))
+        elif case.get("order"):
             funcs = gen_map.build_funcs(spec)
             with contextlib.redirect_stdout(io.StringIO()):
                 p = Pipeline([funcs[i] for i in case["order"]])
@@ -77,24 +84,35 @@ def run_case(case):  # noqa: C901, PLR0912
         return [(findings.exc_sig(e, phase="construct", **pred), f"Pipeline(...) refused a valid spec {[gen_map.spec_str(f) for f in spec['funcs']]}: {type(e).__name__}: {str(e)[:120]}")]
     # "reuse": a second map on the SAME Pipeline object with other input sizes (state kept between runs must not leak)
     runs = [(spec, "first")] + ([({**spec, "sizes": SIZES2}, "second-run-on-same-pipeline")] if case.get("reuse") else [])
-    for rspec, which in runs:
-        out.extend(_one_map(p, rspec, form, storage, bool(case.get("folder")), {**pred, **({"reuse": True} if which != "first" else {})}))
-        if out:
-            break
+    # reuse + folder: BOTH runs go into the same run folder (default cleanup=True: the second run starts from scratch)
+    shared = boot.mkscratch("c01-") if case.get("reuse") and case.get("folder") else None
+    try:
+        for rspec, which in runs:
+            out.extend(_one_map(p, rspec, form, storage, bool(case.get("folder")), {**pred, **({"reuse": True} if which != "first" else {})}, folder=shared))
+            if out:
+                break
+    finally:
+        if shared:
+            shutil.rmtree(shared, ignore_errors=True)
     return out
 
 
-def _one_map(p, spec, form, storage, with_folder, pred):  # noqa: C901, PLR0912
+def _one_map(p, spec, form, storage, with_folder, pred, folder=None):  # noqa: C901, PLR0912
     out = []
+    own_folder = folder is None
+    ishapes = gen_map.internal_shapes_arg(spec)
+    if pred.get("ishape_both"):
+        ishapes = {o: tuple(spec["sizes"][a] for a in fn["internal"]) for fn in spec["funcs"] if fn["internal"] for o in fn["outs"]}
     inputs = gen_map.make_inputs(spec, form)
     exp, calls = gen_map.ref_map(spec, inputs)
-    folder = boot.mkscratch("c01-") if with_folder else None
+    if folder is None:
+        folder = boot.mkscratch("c01-") if with_folder else None
     try:
         terms.LOG.clear()
         try:
             with contextlib.redirect_stdout(io.StringIO()), warnings.catch_warnings():
                 warnings.simplefilter("ignore")
-                r = p.map(dict(inputs), run_folder=folder, internal_shapes=gen_map.internal_shapes_arg(spec), parallel=False,
+                r = p.map(dict(inputs), run_folder=folder, internal_shapes=ishapes, parallel=False,
                           storage=storage if isinstance(storage, str) else {(tuple(k.split(",")) if "," in k else k): v for k, v in storage.items()})
         except Exception as e:  # noqa: BLE001
             return [(findings.exc_sig(e, phase="map", **pred), f"map refused/failed on {[gen_map.spec_str(f) for f in spec['funcs']]} ({storage}): {type(e).__name__}: {str(e)[:120]}")]
@@ -125,7 +143,7 @@ def _one_map(p, spec, form, storage, with_folder, pred):  # noqa: C901, PLR0912
                 out.append(({"kind": "call-count", **pred}, f"{fn['name']} was called {n_calls} times, denotation needs {len(calls[fn['name']])}"
                             f" for {[gen_map.spec_str(f) for f in spec['funcs']]}"))
     finally:
-        if folder:
+        if folder and own_folder:
             shutil.rmtree(folder, ignore_errors=True)
     return out
 
@@ -136,6 +154,8 @@ def cases_for(spec, tier):
     yield {"spec": spec, "form": "list", "storage": "dict"}
     if n == 2:
         yield {"spec": spec, "form": "list", "storage": "dict", "order": [1, 0]}  # consumer listed before its producer
+    if any(fn["internal"] and fn.get("ishape_via", "map") == "pipefunc" for fn in spec["funcs"]):
+        yield {"spec": spec, "form": "list", "storage": "dict", "ishape_both": True}
     mapped_roots = [r for r, axes in spec["roots"].items() if axes]
     if mapped_roots and (n == 1 or len(spec["funcs"][1]["params"]) == 1):
         yield {"spec": spec, "form": "list", "storage": "dict", "default_root": mapped_roots[-1]}
@@ -145,6 +165,7 @@ def cases_for(spec, tier):
     if n == 1 or len(spec["funcs"][1]["params"]) == 1:
         # the same Pipeline object mapped twice with different input sizes
         yield {"spec": spec, "form": "list", "storage": "dict", "reuse": True}
+        yield {"spec": spec, "form": "list", "storage": "dict", "reuse": True, "folder": True}  # … both into ONE run folder
     if n == 1:
         if has_r1:
             yield {"spec": spec, "form": "ndarray", "storage": "dict"}
